@@ -1228,6 +1228,9 @@ func main() {
 	guard(&fs, []string{"jsonStringQuoted", "jsonStringHalf"}, func() { emitQuoteConds(&fs, jhttp, c, funcs, "parseJSONString", "jsonString") })
 	guard(&fs, []string{"quoted64Quoted", "quoted64Half"}, func() { emitQuoteConds(&fs, jhttp, c, funcs, "parseQuoted64", "quoted64") })
 	guard(&fs, []string{"queryCascade"}, func() { emitQueryCascade(&fs, jhttp) })
+	// decision procedures translated as a whole (decide.go)
+	guard(&fs, []string{"deliverAct"}, func() { emitDeliver(&fs, root, c, funcs) })
+	guard(&fs, []string{"responseFor"}, func() { emitResponses(&fs, root, c, funcs) })
 	fs.WriteString("end Jrpc.Gen.Funcs\n")
 	write(*out, "Funcs.lean", fs.String())
 
